@@ -3,6 +3,7 @@ import NutilsVerif.Proofs.C17Stable
 import NutilsVerif.Proofs.C17Intern
 import NutilsVerif.Proofs.C17Bind
 import NutilsVerif.Proofs.C17Header
+import NutilsVerif.Proofs.C17Kw
 /-!
 # C17 — structural identity and hashing are injective and stable: property theorems
 
@@ -186,6 +187,40 @@ theorem arraydata_unsigned_width_independent (w : Nat) (x : Int) (hx : fits64 x 
 /-- the canonical `int64` bytes determine the integer: different data, different `arraydata` -/
 theorem arraydata_canonical_injective {x y : Int} (hx : fits64 x = true) (hy : fits64 y = true)
     (h : encode64 x = encode64 y) : x = y := encode64_inj hx hy h
+
+/-- Byte order of the source data (`'>i8'`, `'>u4'`, ... vs the little-endian layout): an integer item stored most
+significant byte first is cast to the same canonical `int64` bytes as the item stored least significant byte first —
+in particular for the native item size, where only the byte order differs.  Clause: same value however it was built. -/
+theorem arraydata_byteorder_independent (big : Bool) (w : Nat) (x : Int) (hx : fits64 x = true)
+    (hlo : -(256 ^ w : Nat) ≤ 2 * x) (hhi : 2 * x < (256 ^ w : Nat)) :
+    canonIntsBO big true w [if big then (reprS w x).reverse else reprS w x] = some [encode64 x] := by
+  simp [canonIntsBO, decodeBO_reprS big w x hlo hhi, hx]
+
+theorem arraydata_unsigned_byteorder_independent (big : Bool) (w : Nat) (x : Int) (hx : fits64 x = true)
+    (hlo : 0 ≤ x) (hhi : x < (256 ^ w : Nat)) :
+    canonIntsBO big false w [if big then (reprU w x).reverse else reprU w x] = some [encode64 x] := by
+  simp [canonIntsBO, decodeBO_reprU big w x hlo hhi, hx]
+
+/-- the little-endian instance of `canonIntsBO` is `canonInts` (the width theorems above are about the same function) -/
+theorem canonIntsBO_little (signed : Bool) (w : Nat) (items : List Bytes) :
+    canonIntsBO false signed w items = canonInts signed w items := by
+  simp [canonIntsBO, canonInts, decodeIntBO]
+
+/-- Keyword order (`Immutable.__new__`: `tuple(sorted(kwargs.items()))`): the canonical keyword tuple — the last
+construction argument, which `__eq__`, `__hash__`, `__reduce__`, `__nutils_hash__` and the Singleton table see — is the
+same for every order in which the caller wrote the (pairwise different) keywords, including those collected by
+`**kwargs`.  Clause: same hash / same object however it was built (keyword arguments in any order). -/
+theorem kwcanon_order_independent {α : Type} (kw kw' : List (Bytes × α)) (hn : (kw.map (·.1)).Nodup)
+    (h : kw.Perm kw') : kwCanon kw = kwCanon kw' := kwCanon_perm' hn h
+
+/-- ... and it forgets nothing: equal canonical keyword tuples come from the same keyword assignment. -/
+theorem kwcanon_injective {α : Type} (kw kw' : List (Bytes × α)) (h : kwCanon kw = kwCanon kw') : kw.Perm kw' := by
+  unfold kwCanon at h
+  exact (List.mergeSort_perm kw _).symm.trans (h ▸ List.mergeSort_perm kw' _)
+
+example : kwCanon [(utf8 "solver", 1), (utf8 "atol", 2), (utf8 "precon", 3)]
+    = kwCanon [(utf8 "precon", 3), (utf8 "solver", 1), (utf8 "atol", 2)] :=
+  kwcanon_order_independent _ _ (by decide) (by decide)
 
 /-! ## interning: "structurally equal values of interned types are the same object while either is alive" -/
 
